@@ -2,10 +2,10 @@
    involutive ring morphism `conj` (so in particular over the complex numbers):
    sum_{i,j} |u_i v_j - u_j v_i|^2 = 2 (|u|^2 |v|^2 - |<u,v>|^2).
    With psi = |0>_k u + |1>_k v this is 4 * sum_{i<j}|...|^2 = 2 (1 - Tr rho_k^2) for unit vectors. *)
-From mathcomp Require Import all_ssreflect all_algebra.
-From QV Require Import Lagrange MeyerWallach.
+From mathcomp Require Import all_ssreflect all_fingroup all_algebra.
+From QV Require Import Lagrange MeyerWallach MwInvariance.
 Set Implicit Arguments. Unset Strict Implicit. Unset Printing Implicit Defensive.
-Import GRing.Theory.
+Import GRing.Theory Num.Theory.
 Local Open Scope ring_scope.
 
 Theorem C20_lagrange : forall (F : fieldType) (conj : {rmorphism F -> F}) (n : nat) (u v : 'I_n -> F),
@@ -27,3 +27,37 @@ Theorem C20_purity_form : forall (F : fieldType) (a b s sc : F), a + b = 1 ->
   1 - (a * a + b * b + (s * sc + s * sc)) = (a * b + a * b) - (s * sc + s * sc).
 Proof. move=> F a b s sc. exact: purity_form. Qed.
 Print Assumptions C20_purity_form.
+
+(* ---------- the remaining clauses, on the per-qubit quantity D(u, v) (u, v = halves of the state with qubit k = 0, 1);
+   the measure is (4/n) sum_k D_k ---------- *)
+(* zero on product states: for a product state both halves are multiples of one vector *)
+Theorem C20_mw_zero_on_product : forall (F : fieldType) (conj : {rmorphism F -> F}) (n : nat) (u v w : 'I_n -> F) (a b : F),
+  (forall i, u i = a * w i) -> (forall i, v i = b * w i) -> D conj u v = 0.
+Proof. move=> F conj n u v w a b. exact: D_product. Qed.
+Print Assumptions C20_mw_zero_on_product.
+
+(* a one-qubit gate on qubit k itself mixes the halves; D is multiplied by |det|^2 (= 1 for a unitary) *)
+Theorem C20_mw_unitary_same_qubit : forall (F : fieldType) (conj : {rmorphism F -> F}) (n : nat) (u v : 'I_n -> F) (a b c d : F),
+  D conj (fun i => a * u i + b * v i) (fun i => c * u i + d * v i) = nsq conj (a * d - b * c) * D conj u v.
+Proof. move=> F conj n u v a b c d. exact: D_mix. Qed.
+Print Assumptions C20_mw_unitary_same_qubit.
+
+(* a one-qubit gate on another qubit (or any isometry of the remaining register) acts alike on both halves: 2 D unchanged *)
+Theorem C20_mw_unitary_other_qubit : forall (F : fieldType) (conj : {rmorphism F -> F}) (n m : nat) (W : 'I_m -> 'I_n -> F),
+  (forall j l : 'I_n, \sum_(i : 'I_m) W i j * conj (W i l) = (j == l)%:R) ->
+  forall u v : 'I_n -> F,
+  D conj (img W u) (img W v) + D conj (img W u) (img W v) = D conj u v + D conj u v.
+Proof. move=> F conj n m W H u v. exact: D_img. Qed.
+Print Assumptions C20_mw_unitary_other_qubit.
+
+(* relabelling the remaining qubits permutes the index set *)
+Theorem C20_mw_relabel : forall (F : fieldType) (conj : {rmorphism F -> F}) (n : nat) (s : 'S_n) (u v : 'I_n -> F),
+  D conj (fun i => u (s i)) (fun i => v (s i)) + D conj (fun i => u (s i)) (fun i => v (s i)) = D conj u v + D conj u v.
+Proof. move=> F conj n s u v. exact: D_perm. Qed.
+Print Assumptions C20_mw_relabel.
+
+(* range, over the complex numbers (any numClosedFieldType): each 4 D_k lies in [0, 1] for a unit vector, hence so does their mean *)
+Theorem C20_mw_range : forall (C : numClosedFieldType) (n : nat) (u v : 'I_n -> C),
+  (0 <= D (@conjC C) u v)%R /\ (A (@conjC C) u + A (@conjC C) v = 1 -> (D (@conjC C) u v *+ 4 <= 1)%R).
+Proof. move=> C n u v. split. exact: D_ge0. exact: D_le_quarter. Qed.
+Print Assumptions C20_mw_range.
